@@ -7,6 +7,8 @@ import Mathlib.Data.List.Perm.Subperm
 import Mathlib.Data.Rat.Floor
 namespace VL.Biprop
 
+variable {ord : List Nat}
+
 theorem foldl_ext_len {α γ : Type} (g : List γ → α → List γ) (hext : ∀ b a, b.length ≤ (g b a).length) :
     ∀ (l : List α) (b : List γ), b.length ≤ (l.foldl g b).length
   | [], b => le_refl _
@@ -38,7 +40,7 @@ def p2step (q : Rat) (qt : Nat → Nat → Rat) (x : Mat Nat) (p : Nat) (ld : La
   if !hasKey ld d && isUp q (qt d p) (mget x d p) then ld ++ [(d, some p)] else ld
 
 theorem phase1_eq (q : Rat) (qt : Nat → Nat → Rat) (x : Mat Nat) (n : Nat) (labD : LabD) (labP : LabP) :
-    phase1 q qt x n labD labP = labD.foldl (fun lp e => (List.range n).foldl (p1step q qt x e.1) lp) labP := rfl
+    phase1 q qt x n ord labD labP = labD.foldl (fun lp e => (ord.filter (fun p => decide (p < n))).foldl (p1step q qt x e.1) lp) labP := rfl
 theorem phase2_eq (q : Rat) (qt : Nat → Nat → Rat) (x : Mat Nat) (m : Nat) (labD : LabD) (labP : LabP) :
     phase2 q qt x m labD labP = labP.foldl (fun ld e => (List.range m).foldl (p2step q qt x e.1) ld) labD := rfl
 
@@ -57,10 +59,10 @@ theorem p2step_fix (q qt x p) (ld : LabD) (d : Nat) (h : (p2step q qt x p ld d).
   · simp at h
   · rename_i hc; rw [if_neg hc]
 
-theorem phase1_len (q qt x n) (labD : LabD) (labP : LabP) : labP.length ≤ (phase1 q qt x n labD labP).length := by
+theorem phase1_len (q qt x n) (labD : LabD) (labP : LabP) : labP.length ≤ (phase1 q qt x n ord labD labP).length := by
   rw [phase1_eq]
-  exact foldl_ext_len (fun lp (e : Nat × Option Nat) => (List.range n).foldl (p1step q qt x e.1) lp)
-    (fun b e => foldl_ext_len (p1step q qt x e.1) (p1step_len q qt x e.1) (List.range n) b) labD labP
+  exact foldl_ext_len (fun lp (e : Nat × Option Nat) => (ord.filter (fun p => decide (p < n))).foldl (p1step q qt x e.1) lp)
+    (fun b e => foldl_ext_len (p1step q qt x e.1) (p1step_len q qt x e.1) (ord.filter (fun p => decide (p < n))) b) labD labP
 theorem phase2_len (q qt x m) (labD : LabD) (labP : LabP) : labD.length ≤ (phase2 q qt x m labD labP).length := by
   rw [phase2_eq]
   exact foldl_ext_len (fun ld (e : Nat × Nat) => (List.range m).foldl (p2step q qt x e.1) ld)
@@ -69,18 +71,19 @@ theorem phase2_len (q qt x m) (labD : LabD) (labP : LabP) : labD.length ≤ (pha
 /-- a round of `phase1` that adds no label: nothing changed, and every downgradable cell of a labelled district
     belongs to a labelled party -/
 theorem phase1_fix {q : Rat} {qt : Nat → Nat → Rat} {x : Mat Nat} {n : Nat} {labD : LabD} {labP : LabP}
-    (h : (phase1 q qt x n labD labP).length = labP.length) :
-    phase1 q qt x n labD labP = labP ∧
-    ∀ e ∈ labD, ∀ p < n, isDown q (qt e.1 p) (mget x e.1 p) = true → hasKey labP p = true := by
+    (h : (phase1 q qt x n ord labD labP).length = labP.length) :
+    phase1 q qt x n ord labD labP = labP ∧
+    ∀ e ∈ labD, ∀ p ∈ ord, p < n → isDown q (qt e.1 p) (mget x e.1 p) = true → hasKey labP p = true := by
   rw [phase1_eq] at h ⊢
-  obtain ⟨h1, h2⟩ := foldl_ext_fix (fun lp (e : Nat × Option Nat) => (List.range n).foldl (p1step q qt x e.1) lp)
+  obtain ⟨h1, h2⟩ := foldl_ext_fix (fun lp (e : Nat × Option Nat) => (ord.filter (fun p => decide (p < n))).foldl (p1step q qt x e.1) lp)
     (fun b e => foldl_ext_len _ (p1step_len q qt x e.1) _ b)
     (fun b e hb => (foldl_ext_fix _ (p1step_len q qt x e.1) (p1step_fix q qt x e.1) _ b hb).1) labD labP h
-  refine ⟨h1, fun e he p hp hdown => ?_⟩
+  refine ⟨h1, fun e he p hpo hp hdown => ?_⟩
   have hin := h2 e he
-  have hlen : ((List.range n).foldl (p1step q qt x e.1) labP).length = labP.length := by
+  have hlen : ((ord.filter (fun p => decide (p < n))).foldl (p1step q qt x e.1) labP).length = labP.length := by
     rw [hin]
-  have := (foldl_ext_fix _ (p1step_len q qt x e.1) (p1step_fix q qt x e.1) _ labP hlen).2 p (List.mem_range.mpr hp)
+  have := (foldl_ext_fix _ (p1step_len q qt x e.1) (p1step_fix q qt x e.1) _ labP hlen).2 p
+    (List.mem_filter.mpr ⟨hpo, decide_eq_true hp⟩)
   unfold p1step at this
   by_contra hk
   have hk' : hasKey labP p = false := by simpa using hk
@@ -140,17 +143,17 @@ theorem KeysOk.append {α : Type} {bound : Nat} {l : List (Nat × α)} (h : Keys
     · simp only [List.mem_singleton] at he; subst he; exact hb
 
 theorem phase1_keys {q : Rat} {qt : Nat → Nat → Rat} {x : Mat Nat} {n : Nat} {labD : LabD} {labP : LabP}
-    (h : KeysOk n labP) : KeysOk n (phase1 q qt x n labD labP) := by
+    (h : KeysOk n labP) : KeysOk n (phase1 q qt x n ord labD labP) := by
   rw [phase1_eq]
   apply foldl_inv (KeysOk n) _ labD labP h
   intro lp e _ hlp
-  apply foldl_inv (KeysOk n) _ (List.range n) lp hlp
+  apply foldl_inv (KeysOk n) _ (ord.filter (fun p => decide (p < n))) lp hlp
   intro lp' p hp hlp'
   simp only [p1step]
   split
   · rename_i hc
     simp only [Bool.and_eq_true, Bool.not_eq_true'] at hc
-    exact hlp'.append hc.1 (List.mem_range.mp hp)
+    exact hlp'.append hc.1 (of_decide_eq_true (List.mem_filter.mp hp).2)
   · exact hlp'
 
 theorem phase2_keys {q : Rat} {qt : Nat → Nat → Rat} {x : Mat Nat} {m : Nat} {labD : LabD} {labP : LabP}
@@ -181,31 +184,32 @@ theorem phase2_mono {q : Rat} {qt : Nat → Nat → Rat} {x : Mat Nat} {m : Nat}
 
 /-- the labels at the exit of `_labeled`: either an under-represented district was reached, or the labelling is
     closed under both search steps -/
-def LabClosed (q : Rat) (qt : Nat → Nat → Rat) (x : Mat Nat) (m n : Nat) (labD : LabD) (labP : LabP) : Prop :=
-  (∀ e ∈ labD, ∀ p < n, isDown q (qt e.1 p) (mget x e.1 p) = true → hasKey labP p = true) ∧
+def LabClosed (q : Rat) (qt : Nat → Nat → Rat) (x : Mat Nat) (m n : Nat) (ord : List Nat) (labD : LabD) (labP : LabP) :
+    Prop :=
+  (∀ e ∈ labD, ∀ p ∈ ord, p < n → isDown q (qt e.1 p) (mget x e.1 p) = true → hasKey labP p = true) ∧
   (∀ e ∈ labP, ∀ d < m, isUp q (qt d e.1) (mget x d e.1) = true → hasKey labD d = true)
 
 theorem labelLoop_exit {q : Rat} {qt : Nat → Nat → Rat} {x : Mat Nat} {m n : Nat} {under : List Nat} :
     ∀ (f : Nat) (ld : LabD) (lp : LabP), KeysOk m ld → KeysOk n lp → m + n + 1 ≤ f + ld.length + lp.length →
-      (∀ k, hasKey ld k = true → hasKey (labelLoop q qt x m n under f ld lp).1 k = true) ∧
-      (under.any (hasKey (labelLoop q qt x m n under f ld lp).1) = true ∨
-       LabClosed q qt x m n (labelLoop q qt x m n under f ld lp).1 (labelLoop q qt x m n under f ld lp).2)
+      (∀ k, hasKey ld k = true → hasKey (labelLoop q qt x m n ord under f ld lp).1 k = true) ∧
+      (under.any (hasKey (labelLoop q qt x m n ord under f ld lp).1) = true ∨
+       LabClosed q qt x m n ord (labelLoop q qt x m n ord under f ld lp).1 (labelLoop q qt x m n ord under f ld lp).2)
   | 0, ld, lp, hD, hP, hf => by
     have := hD.length_le; have := hP.length_le; omega
   | f+1, ld, lp, hD, hP, hf => by
-    have hP' := phase1_keys (q := q) (qt := qt) (x := x) (labD := ld) hP
-    have hD' := phase2_keys (q := q) (qt := qt) (x := x) (labP := phase1 q qt x n ld lp) hD
-    have hmono := phase2_mono (q := q) (qt := qt) (x := x) (m := m) (labD := ld) (labP := phase1 q qt x n ld lp)
-    have hl1 := phase1_len q qt x n ld lp
-    have hl2 := phase2_len q qt x m ld (phase1 q qt x n ld lp)
+    have hP' := phase1_keys (ord := ord) (q := q) (qt := qt) (x := x) (labD := ld) hP
+    have hD' := phase2_keys (q := q) (qt := qt) (x := x) (labP := phase1 q qt x n ord ld lp) hD
+    have hmono := phase2_mono (q := q) (qt := qt) (x := x) (m := m) (labD := ld) (labP := phase1 q qt x n ord ld lp)
+    have hl1 := phase1_len (ord := ord) q qt x n ld lp
+    have hl2 := phase2_len q qt x m ld (phase1 q qt x n ord ld lp)
     simp only [labelLoop]
     split
     · rename_i hu; exact ⟨hmono, Or.inl hu⟩
     · split
       · rename_i heq
         refine ⟨hmono, Or.inr ?_⟩
-        have e1 : (phase1 q qt x n ld lp).length = lp.length := by omega
-        have e2 : (phase2 q qt x m ld (phase1 q qt x n ld lp)).length = ld.length := by omega
+        have e1 : (phase1 q qt x n ord ld lp).length = lp.length := by omega
+        have e2 : (phase2 q qt x m ld (phase1 q qt x n ord ld lp)).length = ld.length := by omega
         obtain ⟨f1, c1⟩ := phase1_fix e1
         obtain ⟨f2, c2⟩ := phase2_fix e2
         rw [f2, f1]
@@ -219,9 +223,9 @@ open Finset
 
 theorem labeled_exit {q : Rat} {qt : Nat → Nat → Rat} {x : Mat Nat} {m n : Nat} {under over : List Nat}
     (hnd : over.Nodup) (hlt : ∀ d ∈ over, d < m) :
-    (∀ d ∈ over, hasKey (labeled q qt x m n under over).1 d = true) ∧
-    (under.any (hasKey (labeled q qt x m n under over).1) = true ∨
-      LabClosed q qt x m n (labeled q qt x m n under over).1 (labeled q qt x m n under over).2) := by
+    (∀ d ∈ over, hasKey (labeled q qt x m n ord under over).1 d = true) ∧
+    (under.any (hasKey (labeled q qt x m n ord under over).1) = true ∨
+      LabClosed q qt x m n ord (labeled q qt x m n ord under over).1 (labeled q qt x m n ord under over).2) := by
   unfold labeled
   have hK : KeysOk m (over.map (fun d => (d, (none : Option Nat)))) := by
     refine ⟨by simpa [List.map_map, Function.comp_def] using hnd, ?_⟩
@@ -349,7 +353,8 @@ theorem adjCoef_lt_one {q : Rat} (hq : q = 0 ∨ q = 1/2) {qt : Nat → Nat → 
     {labD : LabD} {labP : LabP} {c : Rat}
     (hqt : ∀ i < m, ∀ j < n, 0 ≤ qt i j)
     (hcell : ∀ i < m, ∀ j < n, isRounding q (qt i j) (mget x i j))
-    (hclosed : LabClosed q qt x m n labD labP)
+    (hord : ∀ i < m, ∀ j < n, qt i j ≠ 0 → j ∈ ord)
+    (hclosed : LabClosed q qt x m n ord labD labP)
     (h : adjCoef q qt x m n labD labP = .ok c) : c < 1 := by
   have hq0 : 0 ≤ q := by rcases hq with rfl | rfl <;> norm_num
   have hq1 : q < 1 := by rcases hq with rfl | rfl <;> norm_num
@@ -374,7 +379,7 @@ theorem adjCoef_lt_one {q : Rat} (hq : q = 0 ∨ q = 1/2) {qt : Nat → Nat → 
       have := (hasKey_iff labD i).mp hd
       obtain ⟨e, he, rfl⟩ := List.mem_map.mp this
       exact ⟨e, he, rfl⟩
-    have := hclosed.1 e he j hj (by rw [hek]; exact hdown)
+    have := hclosed.1 e he j (hord i hi j hj hne) hj (by rw [hek]; exact hdown)
     rw [hp] at this; simp at this
   · have hden : (0 : Rat) < (mget x i j : Rat) - q + 1 := by
       have : (0 : Rat) ≤ (mget x i j : Rat) := Nat.cast_nonneg _
@@ -439,15 +444,15 @@ def underOf (tgt : List Nat) (s : State) (m : Nat) : List Nat :=
   (List.range m).filter (fun i => decide (rowSum s.x i < tgt.getD i 0))
 def overOf (tgt : List Nat) (s : State) (m : Nat) : List Nat :=
   (List.range m).filter (fun i => decide (rowSum s.x i > tgt.getD i 0))
-def labelsOf (q : Rat) (V : Mat Rat) (tgt : List Nat) (s : State) : LabD × LabP :=
-  labeled q (quot V s) s.x V.length (nCols V) (underOf tgt s V.length) (overOf tgt s V.length)
+def labelsOf (q : Rat) (ord : List Nat) (V : Mat Rat) (tgt : List Nat) (s : State) : LabD × LabP :=
+  labeled q (quot V s) s.x V.length (nCols V) ord (underOf tgt s V.length) (overOf tgt s V.length)
 
 /-- what a `VotingSystemError` of one loop iteration means -/
 theorem step_refusal {q : Rat} {V : Mat Rat} {tgt : List Nat} {s : State}
-    (h : step q V tgt s = .error .votingSystemError) :
+    (h : step q ord V tgt s = .error .votingSystemError) :
     ¬ ((underOf tgt s V.length).isEmpty && (overOf tgt s V.length).isEmpty) = true ∧
-    (underOf tgt s V.length).filter (hasKey (labelsOf q V tgt s).1) = [] ∧
-    ∃ c, adjCoef q (quot V s) s.x V.length (nCols V) (labelsOf q V tgt s).1 (labelsOf q V tgt s).2 = .ok c ∧
+    (underOf tgt s V.length).filter (hasKey (labelsOf q ord V tgt s).1) = [] ∧
+    ∃ c, adjCoef q (quot V s) s.x V.length (nCols V) (labelsOf q ord V tgt s).1 (labelsOf q ord V tgt s).2 = .ok c ∧
       (c = 0 ∨ c ≥ 1) := by
   unfold labelsOf underOf overOf
   unfold step at h
@@ -456,7 +461,7 @@ theorem step_refusal {q : Rat} {V : Mat Rat} {tgt : List Nat} {s : State}
   · simp at h
   · rename_i hne
     refine ⟨hne, ?_⟩
-    generalize labeled q (quot V s) s.x V.length (nCols V) _ _ = L at h ⊢
+    generalize labeled q (quot V s) s.x V.length (nCols V) ord _ _ = L at h ⊢
     obtain ⟨labD, labP⟩ := L
     simp only at h ⊢
     split at h
@@ -493,12 +498,31 @@ theorem rowSum_eq {x : Mat Nat} {m n : Nat} (hs : shapeOk x m n = true) {i : Nat
   rw [← sumN_eq_sum, ← sumN_getD, shapeOk_row hs hi]
   rfl
 
+theorem ordCovers_mem {V : Mat Rat} (h : ordCovers ord V = true) : ∀ i j, vget V i j ≠ 0 → j ∈ ord := by
+  intro i j hv
+  simp only [ordCovers, List.all_eq_true, List.mem_range, Bool.or_eq_true, beq_iff_eq] at h
+  unfold vget at hv
+  simp only [List.getD_eq_getElem?_getD] at hv
+  cases hi : V[i]? with
+  | none => rw [hi] at hv; simp at hv
+  | some r =>
+    rw [hi] at hv
+    simp only [Option.getD_some] at hv
+    have hr : r ∈ V := List.mem_of_getElem? hi
+    have hj : j < r.length := by
+      by_contra hc
+      rw [List.getElem?_eq_none (by omega)] at hv
+      simp at hv
+    rcases h r hr j hj with h0 | h0
+    · rw [List.getD_eq_getElem?_getD] at h0; exact absurd h0 hv
+    · simpa using h0
+
 /-- **A refusal is justified**: when an iteration raises `VotingSystemError` in a consistent state, the labels
     (or, without any over-represented district, the whole matrix) form a Hall cut that the verified checker
     accepts for the district targets and the current party totals. -/
 theorem step_refusal_cut {q : Rat} (hq : q = 0 ∨ q = 1/2) {V : Mat Rat} {tgt : List Nat} {s : State}
-    (hV : ∀ i j, 0 ≤ vget V i j) (hs : shapeOk s.x V.length (nCols V) = true)
-    (hinv : LoopInv q V V.length (nCols V) s) (h : step q V tgt s = .error .votingSystemError) :
+    (hV : ∀ i j, 0 ≤ vget V i j) (hcov : ordCovers ord V = true) (hs : shapeOk s.x V.length (nCols V) = true)
+    (hinv : LoopInv q V V.length (nCols V) s) (h : step q ord V tgt s = .error .votingSystemError) :
     ∃ S T : Nat → Bool, infeasibleCheck V.length (nCols V) (vget V) (fun i => tgt.getD i 0)
       (fun j => sumN (fun i => mget s.x i j) V.length) S T = true := by
   have hq0 : 0 ≤ q := by rcases hq with rfl | rfl <;> norm_num
@@ -536,23 +560,27 @@ theorem step_refusal_cut {q : Rat} (hq : q = 0 ∨ q = 1/2) {V : Mat Rat} {tgt :
     obtain ⟨hovl, hexit⟩ := labeled_exit (q := q) (qt := quot V s) (x := s.x) (n := nCols V)
       (under := underOf tgt s V.length) (over := overOf tgt s V.length)
       (List.Nodup.filter _ List.nodup_range) (fun d hd => ((hover d).mp hd).1)
-    have hclosed : LabClosed q (quot V s) s.x V.length (nCols V) (labelsOf q V tgt s).1 (labelsOf q V tgt s).2 := by
+    have hclosed : LabClosed q (quot V s) s.x V.length (nCols V) ord (labelsOf q ord V tgt s).1 (labelsOf q ord V tgt s).2 := by
       rcases hexit with hu | hcl
       · exfalso
         rw [List.any_eq_true] at hu
         obtain ⟨i, hi, hk⟩ := hu
-        have : i ∈ (underOf tgt s V.length).filter (hasKey (labelsOf q V tgt s).1) :=
+        have : i ∈ (underOf tgt s V.length).filter (hasKey (labelsOf q ord V tgt s).1) :=
           List.mem_filter.mpr ⟨hi, hk⟩
         rw [hnil] at this; simp at this
       · exact hcl
-    have hlt1 := adjCoef_lt_one hq hqt hcell hclosed hadj
+    have hord : ∀ i < V.length, ∀ j < nCols V, quot V s i j ≠ 0 → j ∈ ord := by
+      intro i _ j _ hne0
+      apply ordCovers_mem hcov i j
+      intro hv0; apply hne0; unfold quot; rw [hv0]; simp
+    have hlt1 := adjCoef_lt_one hq hqt hcell hord hclosed hadj
     have hc0 : c = 0 := by rcases hc with h0 | h1; exact h0; linarith
     subst hc0
     obtain ⟨_, halpha, hbeta⟩ := adjCoef_bounds hq1 hadj
-    refine ⟨hasKey (labelsOf q V tgt s).1, hasKey (labelsOf q V tgt s).2, ?_⟩
+    refine ⟨hasKey (labelsOf q ord V tgt s).1, hasKey (labelsOf q ord V tgt s).2, ?_⟩
     -- labelled district × unlabelled party holds no seat
-    have hzeroA : ∀ i < V.length, ∀ j < nCols V, hasKey (labelsOf q V tgt s).1 i = true →
-        hasKey (labelsOf q V tgt s).2 j = false → mget s.x i j = 0 := by
+    have hzeroA : ∀ i < V.length, ∀ j < nCols V, hasKey (labelsOf q ord V tgt s).1 i = true →
+        hasKey (labelsOf q ord V tgt s).2 j = false → mget s.x i j = 0 := by
       intro i hi j hj hd hp
       by_contra hx
       have hx1 : (1 : Rat) ≤ (mget s.x i j : Rat) := by exact_mod_cast Nat.one_le_iff_ne_zero.mpr hx
@@ -561,8 +589,8 @@ theorem step_refusal_cut {q : Rat} (hq : q = 0 ∨ q = 1/2) {V : Mat Rat} {tgt :
       have : 0 < ((mget s.x i j : Rat) - q) / quot V s i j := div_pos (by linarith) hpos
       linarith
     -- unlabelled district × labelled party has no votes
-    have hzeroB : ∀ i < V.length, ∀ j < nCols V, hasKey (labelsOf q V tgt s).1 i = false →
-        hasKey (labelsOf q V tgt s).2 j = true → vget V i j = 0 := by
+    have hzeroB : ∀ i < V.length, ∀ j < nCols V, hasKey (labelsOf q ord V tgt s).1 i = false →
+        hasKey (labelsOf q ord V tgt s).2 j = true → vget V i j = 0 := by
       intro i hi j hj hd hp
       by_contra hv
       have hvpos : 0 < vget V i j := lt_of_le_of_ne (hV i j) (Ne.symm hv)
@@ -579,51 +607,51 @@ theorem step_refusal_cut {q : Rat} (hq : q = 0 ∨ q = 1/2) {V : Mat Rat} {tgt :
     right
     refine ⟨?_, ?_⟩
     · intro i hi j hj
-      by_cases hd : hasKey (labelsOf q V tgt s).1 i = true
+      by_cases hd : hasKey (labelsOf q ord V tgt s).1 i = true
       · left; left; exact hd
-      · by_cases hp : hasKey (labelsOf q V tgt s).2 j = true
+      · by_cases hp : hasKey (labelsOf q ord V tgt s).2 j = true
         · right; exact hzeroB i hi j hj (by simpa using hd) hp
         · left; right; simpa using hp
     · obtain ⟨i0, hi0⟩ := List.exists_mem_of_ne_nil _ hov
       obtain ⟨hi0m, hi0gt⟩ := (hover i0).mp hi0
-      have hS0 : hasKey (labelsOf q V tgt s).1 i0 = true := hovl i0 hi0
+      have hS0 : hasKey (labelsOf q ord V tgt s).1 i0 = true := hovl i0 hi0
       -- Σ_{i∈S} tgt_i < Σ_{i∈S} cur_i
-      have h1 : ∑ i ∈ range V.length, (if hasKey (labelsOf q V tgt s).1 i = true then tgt.getD i 0 else 0)
-          < ∑ i ∈ range V.length, (if hasKey (labelsOf q V tgt s).1 i = true then rowSum s.x i else 0) := by
+      have h1 : ∑ i ∈ range V.length, (if hasKey (labelsOf q ord V tgt s).1 i = true then tgt.getD i 0 else 0)
+          < ∑ i ∈ range V.length, (if hasKey (labelsOf q ord V tgt s).1 i = true then rowSum s.x i else 0) := by
         apply Finset.sum_lt_sum
         · intro i hi
           have him := Finset.mem_range.mp hi
-          by_cases hd : hasKey (labelsOf q V tgt s).1 i = true
+          by_cases hd : hasKey (labelsOf q ord V tgt s).1 i = true
           · simp only [hd, if_true]
             by_contra hlt
-            have : i ∈ (underOf tgt s V.length).filter (hasKey (labelsOf q V tgt s).1) :=
+            have : i ∈ (underOf tgt s V.length).filter (hasKey (labelsOf q ord V tgt s).1) :=
               List.mem_filter.mpr ⟨(hunder i).mpr ⟨him, by omega⟩, hd⟩
             rw [hnil] at this; simp at this
           · simp [hd]
         · exact ⟨i0, Finset.mem_range.mpr hi0m, by rw [if_pos hS0, if_pos hS0]; exact hi0gt⟩
       -- Σ_{i∈S} cur_i ≤ Σ_{j∈T} col_j
-      have h2 : ∑ i ∈ range V.length, (if hasKey (labelsOf q V tgt s).1 i = true then rowSum s.x i else 0)
-          ≤ ∑ j ∈ range (nCols V), (if hasKey (labelsOf q V tgt s).2 j = true
+      have h2 : ∑ i ∈ range V.length, (if hasKey (labelsOf q ord V tgt s).1 i = true then rowSum s.x i else 0)
+          ≤ ∑ j ∈ range (nCols V), (if hasKey (labelsOf q ord V tgt s).2 j = true
               then ∑ i ∈ range V.length, mget s.x i j else 0) := by
-        have e : ∑ j ∈ range (nCols V), (if hasKey (labelsOf q V tgt s).2 j = true
+        have e : ∑ j ∈ range (nCols V), (if hasKey (labelsOf q ord V tgt s).2 j = true
               then ∑ i ∈ range V.length, mget s.x i j else 0)
             = ∑ i ∈ range V.length, ∑ j ∈ range (nCols V),
-                (if hasKey (labelsOf q V tgt s).2 j = true then mget s.x i j else 0) := by
+                (if hasKey (labelsOf q ord V tgt s).2 j = true then mget s.x i j else 0) := by
           rw [Finset.sum_comm]
           apply Finset.sum_congr rfl
           intro j _
-          by_cases hp : hasKey (labelsOf q V tgt s).2 j = true <;> simp [hp]
+          by_cases hp : hasKey (labelsOf q ord V tgt s).2 j = true <;> simp [hp]
         rw [e]
         apply Finset.sum_le_sum
         intro i hi
         have him := Finset.mem_range.mp hi
-        by_cases hd : hasKey (labelsOf q V tgt s).1 i = true
+        by_cases hd : hasKey (labelsOf q ord V tgt s).1 i = true
         · simp only [hd, if_true]
           rw [rowSum_eq hs him]
           apply Finset.sum_le_sum
           intro j hj
           have hjn := Finset.mem_range.mp hj
-          by_cases hp : hasKey (labelsOf q V tgt s).2 j = true
+          by_cases hp : hasKey (labelsOf q ord V tgt s).2 j = true
           · simp [hp]
           · rw [hzeroA i him j hjn hd (by simpa using hp)]; simp
         · simp [hd]
